@@ -91,7 +91,11 @@ fn main() {
     // every workload module offers dispatch(prop, args, rep) -> handled?
     let handled = vh_codec::dispatch(&args, &mut rep)
         || vh_misc::dispatch(&args, &mut rep)
-        || vh_crypto::dispatch(&args, &mut rep);
+        || vh_crypto::dispatch(&args, &mut rep)
+        || vh_frame::dispatch(&args, &mut rep)
+        || vh_monit::dispatch(&args, &mut rep)
+        || vh_sess::dispatch(&args, &mut rep)
+        || vh_subs::dispatch(&args, &mut rep);
     if !handled {
         eprintln!("unknown property {}", args.prop);
         std::process::exit(2);
